@@ -5,5 +5,6 @@ INIT InitPairsAll
 NEXT Next
 INVARIANT RoundTrip
 INVARIANT SizeIsLength
+INVARIANT ExtensionSignedIffFee
 POSTCONDITION ExportPairsAll
 CHECK_DEADLOCK FALSE
